@@ -497,7 +497,7 @@ def variant_arms(body, cfg, du, def_local, start_blocks):
     return None
 
 
-def static_of(body, du, op, depth=8):
+def static_of(body, du, op, depth=16):
     """Static whose (Lazy) contents an operand refers to, following refs/deref calls."""
     seen = 0
     while op is not None and seen < depth:
@@ -505,6 +505,29 @@ def static_of(body, du, op, depth=8):
         if op["k"] == "const":
             return norm(op.get("static")) if op.get("static") else None
         l = op["p"]["l"]
+        # a value read out of an aggregate built in this body (a closure's environment after the closure was spliced in,
+        # a tuple): continue with the operand the aggregate was built from at that position
+        fproj = [e for e in op["p"]["proj"] if isinstance(e, dict) and "i" in e]
+        if len(fproj) == 1 and all(e == "deref" or e is fproj[0] for e in op["p"]["proj"]):
+            base, hops = l, 0
+            while hops < 4:
+                hops += 1
+                bd = du.defs.get(base, [])
+                if len(bd) != 1 or bd[0][2] != "assign":
+                    break
+                rv0 = bd[0][3]["rhs"]
+                if rv0["k"] == "agg" and fproj[0]["i"] < len(rv0.get("ops") or []):
+                    op = rv0["ops"][fproj[0]["i"]]
+                    base = None
+                    break
+                if rv0["k"] in ("use",) and rv0["a"]["k"] in ("move", "copy") and not rv0["a"]["p"]["proj"]:
+                    base = rv0["a"]["p"]["l"]
+                elif rv0["k"] in ("ref", "rawptr") and not rv0["p"]["proj"]:
+                    base = rv0["p"]["l"]
+                else:
+                    break
+            if base is None:
+                continue
         ds = du.defs.get(l, [])
         nxt = None
         for (_b, _i, kind, s) in ds:
